@@ -4,6 +4,7 @@ import vlib
 from props.common import TRUSTED_BASE, ASSUMPTIONS
 
 ID = "C11"
+FORMAT_GROUP = "total"
 LEAN_MODULES = ["LexVerif.Props.C11", "LexVerif.Props.C11Int"]
 GEN = []
 TRUSTED = TRUSTED_BASE + [
